@@ -280,3 +280,48 @@ def sibling(R, rule, facts, path_a, path_b, subs=V12, allowed=(), facts_b=None):
          "skeletons differ: " + "; ".join("%s: %s vs %s" % d for d in bad[:4]),
          nontrivial=True)
     return not bad
+
+
+def flat_defs(fn, op, terms=None, depth=24, _seen=None, chain=()):
+    """leaf definitions of an operand, following copies / reborrows / transparent wrappers through locals
+    with any number of definitions. Returns [(term, bbs)] where bbs is the tuple of blocks of the
+    definitions passed on the way to (and including) the leaf definition."""
+    terms = terms or F.Terms(fn)
+    _seen = _seen if _seen is not None else set()
+    pl = op.get("c", op.get("m")) if isinstance(op, dict) else None
+    if pl is None:
+        return [(terms.operand(op, depth), chain)]
+    if isinstance(pl, dict):
+        if all(p == "*" for p in pl["p"]):
+            pl = pl["l"]
+        else:
+            return [(terms.place(pl, depth), chain)]
+    l = pl
+    if l in _seen:
+        return []
+    _seen.add(l)
+    ds = fn.defs().get(l, [])
+    if not ds:
+        return [(terms.local(l, depth), chain)]
+    out = []
+    for d in ds:
+        if d[0] == "stmt":
+            rv = d[3]["rv"]
+            src = None
+            if "use" in rv and isinstance(rv["use"], dict) and ("c" in rv["use"] or "m" in rv["use"]):
+                src = rv["use"]
+            elif "ref" in rv or "rawptr" in rv:
+                src = {"c": rv.get("ref", rv.get("rawptr"))}
+            elif "cast" in rv and isinstance(rv["cast"], dict) and ("c" in rv["cast"] or "m" in rv["cast"]):
+                src = rv["cast"]
+            if src is not None:
+                out.extend(flat_defs(fn, src, terms, depth, _seen, chain + (d[1],)))
+                continue
+            out.append((terms.rvalue(rv, depth), chain + (d[1],)))
+        else:
+            c = d[2]
+            if any(callee_match(c.name, p) for p in TRANSPARENT) and c.args:
+                out.extend(flat_defs(fn, c.args[0], terms, depth, _seen, chain + (c.bb,)))
+            else:
+                out.append((("call", c.name, tuple(terms.operand(a, depth) for a in c.args), c.bb), chain + (c.bb,)))
+    return out
